@@ -38,6 +38,13 @@ def write_training(path, lines, encoding='utf-8', newline='\n'):
             f.write(newline.encode('ascii'))
 
 
+def counted_form(lines):
+    seen = {}
+    for pw in lines:
+        seen[pw] = seen.get(pw, 0) + 1
+    return list(seen.items())
+
+
 def train(workdir, lines, rule='v', newline='\n', raw_bytes=None, keep_existing=False, **opts):
     """Returns (ok, base_directory, captured_stdout, program_info).  ok is run_trainer's return value."""
     tree.imp('lib_trainer.run_trainer')
@@ -49,12 +56,17 @@ def train(workdir, lines, rule='v', newline='\n', raw_bytes=None, keep_existing=
     if raw_bytes is not None:
         with open(tf, 'wb') as f:
             f.write(raw_bytes)
+    elif opts.get('counted'):
+        # the list as `sort | uniq -c` prints it (trainer.py --prefixcount): one line per distinct password, count right-aligned in 7 columns
+        write_training(tf, ['%7d %s' % (n, pw) for pw, n in counted_form(lines)], enc, newline)
     else:
         write_training(tf, lines, enc, newline)
     base = os.path.join(workdir, 'Rules', rule)
     if os.path.isdir(base) and not keep_existing:
         shutil.rmtree(base)
     opts = dict(opts)
+    if opts.pop('counted', None):
+        opts['prefixcount'] = True
     mw = opts.pop('multiword_words', None)
     if mw:
         # trainer.py --multiword FILE: words that pre-train the multi-word detector
